@@ -69,6 +69,41 @@ W.contract(
     props=["C13", "C14"],
 )
 
+def _slice_param(lo, hi):
+    def mk(ex, name):
+        from pyvc.engine import PySlice
+        from pyvc.sym import named
+
+        return PySlice(named(lo, INT) if lo else None, named(hi, INT) if hi else None, None)
+
+    return mk
+
+
+W.contract(
+    LL + "__getitem__#slice",
+    params=dict(self=LAZY, position=_slice_param("a", "b")), ghost=dict(a=INT, b=INT), result=SEQ(VAL), lets=LETS,
+    requires=[INV, "0 <= a", "0 <= b", f"b <= len({SRC})"],
+    ensures=[INV, f"result == {SRC}[a:b]", f"{K} == (max(k0, b) if a < b else k0)"],
+    ensures_names=["C13-inv", "C13-slice", "C14-pulls-only-needed"],
+    modifies=MODS,
+    loops={1: dict(inv=[INV, f"ret == {SRC}[a:a + _k]", f"{K} == (max(k0, a + _k) if _k > 0 else k0)", "a + _k <= b or _k == 0"], types={"ret": SEQ(VAL)})},
+    note="ll[a:b] with 0 <= a, 0 <= b <= len: the items, and no item beyond b is pulled (the first-n-items case of C14)",
+    props=["C13", "C14"],
+)
+
+W.contract(
+    LL + "__getitem__#tail",
+    params=dict(self=LAZY, position=_slice_param("a", None)), ghost=dict(a=INT), result=SEQ(VAL), yields=VAL, lets=LETS,
+    requires=[INV, "0 <= a"],
+    at_yield=[INV, f"{K} <= max(k0, a + len(_yielded))", f"_yielded == {SRC}[a:a + len(_yielded)]"],
+    ensures=[INV, f"result == {SRC}[a:]"],
+    ensures_names=["C13-inv", "C13-tail"],
+    modifies=MODS,
+    loops={0: dict(inv=[INV, "i >= a", f"_yielded == {SRC}[a:i]", f"i <= len({SRC}) or len(_yielded) == 0", f"{K} <= max(k0, i)", "len(_yielded) == (i - a if i <= len(" + SRC + ") else 0)"])},
+    note="ll[a:] stays lazy: when item j of the tail is yielded at most a+j+1 items have been pulled",
+    props=["C13", "C14"],
+)
+
 W.contract(
     LL + "__iter__",
     params=dict(self=LAZY), result=SEQ(VAL), yields=VAL, lets=LETS, requires=[INV],
